@@ -240,10 +240,16 @@ func strLen(a *Term) *Term {
 	if a.IsConst() {
 		return BVConst(uint64(len(a.S)), 64)
 	}
+	if mathInts {
+		return App("str.len", IntSort, a)
+	}
 	return mk("int2bv", BV(64), 0, 0, "", App("str.len", IntSort, a))
 }
 
 func bvToInt(t *Term) *Term {
+	if t.Sort.K == SInt {
+		return t
+	}
 	if t.IsConst() {
 		return IntConst(t.SVal())
 	}
@@ -364,6 +370,9 @@ func strIndexOf(s, sub *Term) *Term {
 }
 
 func intToBV(i *Term, w int) *Term {
+	if mathInts {
+		return i
+	}
 	if i.IsConst() {
 		return BVConst(i.U, w)
 	}
